@@ -86,7 +86,7 @@ def root_queue(v, tier, seed):
             v.add_model("Root/%s (simulation, 40000 behaviours x 8 workers, depth 150)" % name, r)
             if r.violated:
                 v.violation("Root.tla config %s (simulation) violates %s" % (name, r.violated), save_replay(PROP, "Root_%s_sim.tlc.out" % name, r.out))
-    for base, mut in (("R3", "no_monitor"), ("R5", "drain_race_no_poke")):
+    for base, mut in (("R3", "no_monitor"), ("R5", "drain_race_no_poke"), ("R3", "poke_full_keeps_pending")):
         src = open(os.path.join(SPEC, "cfg", "Root_%s.cfg" % base)).read().replace('Mut = "none"', 'Mut = "%s"' % mut)
         p = os.path.join(rundir(PROP), "Root_%s_%s.cfg" % (base, mut))
         open(p, "w").write(src)
